@@ -1,6 +1,7 @@
 package govc
 
 import (
+	"regexp"
 	"fmt"
 	"go/ast"
 	"go/token"
@@ -130,6 +131,16 @@ func (e *Exec) loopEnv(st *State, n ast.Node, inner token.Pos) *SpecEnv {
 			if v, ok := lookupAt(pk, inner, name, s); ok {
 				return v, true
 			}
+			// the contract's names for unnamed results mean something only at return: inside a loop
+			// such a name can only be a (renamed) local
+			if len(frames) == 1 && e.contract != nil && e.lit == nil {
+				sig := frames[0].sig
+				for i, rn := range e.resultNames(sig, e.contract) {
+					if rn == name && i < sig.Results().Len() && sig.Results().At(i).Name() == "" {
+						return nil, false
+					}
+				}
+			}
 			return base(name, s)
 		}
 		// walk up inline frames
@@ -149,15 +160,11 @@ func (e *Exec) loopEnv(st *State, n ast.Node, inner token.Pos) *SpecEnv {
 		}
 		return base(name, s)
 	}
-	// a name nothing else resolves (not a variable, ghost, let or package member): most often the loop
-	// counter was renamed. The invariant is then read with the loop's own counter in its place (if that
-	// reading is wrong the invariant fails - an invariant is never assumed before it has been proved).
+	// a name nothing else resolves (not a variable, ghost, let or package member): a local was renamed.
+	// resolveLoopNames has chosen, per loop, which variable in scope takes its place; if that reading is
+	// wrong the invariant fails (an invariant is never assumed before it has been proved).
 	env.lastResort = func(name string, s *State) (Value, bool) {
-		ctr := loopCounter(n)
-		if ctr == nil {
-			return nil, false
-		}
-		obj := pk.TypesInfo.Defs[ctr]
+		obj := e.loopAlias[n][name]
 		if obj == nil {
 			return nil, false
 		}
@@ -166,10 +173,6 @@ func (e *Exec) loopEnv(st *State, n ast.Node, inner token.Pos) *SpecEnv {
 			return nil, false
 		}
 		v, ok := s.store[c]
-		if ok && !e.renamed[name] {
-			e.renamed[name] = true
-			e.warnings = append(e.warnings, "loop invariant names `"+name+"`, which does not exist: read as the loop counter `"+ctr.Name+"`")
-		}
 		return v, ok
 	}
 	return env
@@ -205,6 +208,7 @@ func (e *Exec) loopCut(st *State, d loopDesc) []Outcome {
 	if spec != nil {
 		invs = spec.Invariants
 	}
+	e.resolveLoopNames(st, d, key, invs)
 	// 1. invariants hold on entry
 	env := e.loopEnv(st, d.node, d.inner)
 	env.pre = st
@@ -368,7 +372,156 @@ func (e *Exec) autoForInvariant(st *State, x *ast.ForStmt) func(*State) *Term {
 	}
 	cell := e.cellFor(obj)
 	init := asTerm(st.store[cell])
-	return func(s *State) *Term { return mkGe(asTerm(s.store[cell]), init) }
+	// upper bound from a condition `i < B` / `i <= B` whose B is a local the loop does not assign
+	// (or its len, or a constant): i <= max(A, B) resp. max(A, B+1) holds by induction
+	var bound ast.Expr
+	strict := true
+	if be, ok := x.Cond.(*ast.BinaryExpr); ok && (be.Op == token.LSS || be.Op == token.LEQ) {
+		if li, ok := ast.Unparen(be.X).(*ast.Ident); ok && e.info().Uses[li] == obj {
+			bound, strict = be.Y, be.Op == token.LSS
+		}
+	}
+	boundOK := bound != nil
+	if boundOK {
+		ast.Inspect(bound, func(n ast.Node) bool {
+			if n == nil {
+				return false
+			}
+			switch b := n.(type) {
+			case *ast.Ident:
+				o := e.info().Uses[b]
+				switch oo := o.(type) {
+				case *types.Var:
+					if oo.Parent() == oo.Pkg().Scope() || e.assignedIn(x, oo) {
+						boundOK = false
+					}
+				case *types.Const, *types.Builtin, *types.TypeName, nil:
+				default:
+					boundOK = false
+				}
+			case *ast.BasicLit, *ast.ParenExpr, *ast.BinaryExpr:
+			case *ast.CallExpr:
+				// only len(x) / conversions T(x)
+				if id, ok := b.Fun.(*ast.Ident); !ok || !(id.Name == "len" || e.info().Types[b.Fun].IsType()) {
+					boundOK = false
+				}
+			default:
+				boundOK = false
+			}
+			return boundOK
+		})
+	}
+	// fill loop `for i := A; i < N; i++ { X[i] = C }` (X a slice variable and C a constant or variable the
+	// loop does not assign): after any number of iterations X holds C on [A, i) and its entry content
+	// elsewhere. The loop needs no written invariant (e.g. when a refactoring moved it into a helper).
+	var fill func(s *State, cur *Term) *Term
+	if len(x.Body.List) == 1 {
+		if as, ok := x.Body.List[0].(*ast.AssignStmt); ok && as.Tok == token.ASSIGN && len(as.Lhs) == 1 && len(as.Rhs) == 1 {
+			if ix, ok := as.Lhs[0].(*ast.IndexExpr); ok {
+				xid, ok1 := ast.Unparen(ix.X).(*ast.Ident)
+				iid, ok2 := ast.Unparen(ix.Index).(*ast.Ident)
+				if ok1 && ok2 && e.info().Uses[iid] == obj {
+					if xv, ok := e.info().Uses[xid].(*types.Var); ok && xv.Parent() != xv.Pkg().Scope() && !e.assignedIn(x, xv) {
+						if sl, ok := xv.Type().Underlying().(*types.Slice); ok && reprOf(sl.Elem()) == rInt {
+							constRHS := false
+							switch r := ast.Unparen(as.Rhs[0]).(type) {
+							case *ast.BasicLit:
+								constRHS = true
+							case *ast.Ident:
+								if rv, ok := e.info().Uses[r].(*types.Var); ok && rv.Parent() != rv.Pkg().Scope() && !e.assignedIn(x, rv) && rv != obj {
+									constRHS = true
+								}
+								if _, ok := e.info().Uses[r].(*types.Const); ok {
+									constRHS = true
+								}
+							}
+							if xc, ok := e.cells[xv]; ok && constRHS {
+								if sv, ok := st.store[xc].(SliceVal); ok {
+									key := memFamily(sl.Elem())
+									preInner := mkSelect(st.memMap(key, SInt), sv.Arr)
+									rhs := as.Rhs[0]
+									fill = func(s *State, cur *Term) *Term {
+										saved := s.quiet
+										s.quiet++
+										cv := asTerm(e.convertAssign(s, e.eval(s, rhs), sl.Elem()))
+										s.quiet = saved
+										k := mkVar("k!fill", SInt)
+										now := mkSelect(s.memMap(key, SInt), sv.Arr)
+										in := mkAnd(mkLe(mkAdd(sv.Off, init), k), mkLt(k, mkAdd(sv.Off, cur)))
+										return mkForall([]*Term{k}, mkEq(mkSelect(now, k), mkIte(in, cv, mkSelect(preInner, k))), mkSelect(now, k))
+									}
+								}
+							}
+						}
+					}
+				}
+			}
+		}
+	}
+	return func(s *State) *Term {
+		cur := asTerm(s.store[cell])
+		inv := mkGe(cur, init)
+		if fill != nil {
+			inv = mkAnd(inv, fill(s, cur))
+		}
+		if boundOK {
+			saved := s.quiet
+			s.quiet++
+			bv := func() (t *Term) {
+				defer func() {
+					if r := recover(); r != nil {
+						t = nil
+					}
+				}()
+				return asTerm(e.eval(s, bound))
+			}()
+			s.quiet = saved
+			if bv != nil {
+				if !strict {
+					bv = mkAdd(bv, tOne)
+				}
+				inv = mkAnd(inv, mkLe(cur, mkMax(init, bv)))
+			}
+		}
+		return inv
+	}
+}
+
+// assignedIn: the loop (body or post statement) assigns v or takes its address.
+func (e *Exec) assignedIn(x *ast.ForStmt, v *types.Var) bool {
+	found := false
+	check := func(n ast.Node) bool {
+		switch a := n.(type) {
+		case *ast.AssignStmt:
+			for _, l := range a.Lhs {
+				if li, ok := l.(*ast.Ident); ok && (e.info().Uses[li] == v || e.info().Defs[li] == v) {
+					found = true
+				}
+			}
+		case *ast.IncDecStmt:
+			if li, ok := a.X.(*ast.Ident); ok && e.info().Uses[li] == v {
+				found = true
+			}
+		case *ast.UnaryExpr:
+			if a.Op == token.AND {
+				if li, ok := a.X.(*ast.Ident); ok && e.info().Uses[li] == v {
+					found = true
+				}
+			}
+		case *ast.RangeStmt:
+			for _, kx := range []ast.Expr{a.Key, a.Value} {
+				if li, ok := kx.(*ast.Ident); ok && a.Tok == token.ASSIGN && e.info().Uses[li] == v {
+					found = true
+				}
+			}
+		}
+		return true
+	}
+	ast.Inspect(x.Body, check)
+	if x.Post != nil {
+		ast.Inspect(x.Post, check)
+	}
+	return found
 }
 
 // ---------------------------------------------------------------------------------------------
@@ -698,4 +851,107 @@ func loopCounter(n ast.Node) *ast.Ident {
 		}
 	}
 	return nil
+}
+
+var unknownIdentRe = regexp.MustCompile(`unknown identifier \$?([A-Za-z_][A-Za-z0-9_]*)`)
+
+// resolveLoopNames: when an invariant names a variable the code no longer has (a renamed local), pick
+// the variable in scope that takes its place: one the contract does not mention anywhere (so it is new
+// to the contract) and under which the invariant is well-typed. The loop counter is tried first.
+func (e *Exec) resolveLoopNames(st *State, d loopDesc, key string, invs []*Clause) {
+	if len(invs) == 0 || e.contract == nil {
+		return
+	}
+	if e.loopAlias[d.node] == nil {
+		e.loopAlias[d.node] = map[string]types.Object{}
+	}
+	pk := e.curPkg()
+	mentioned := func(name string) bool {
+		re := regexp.MustCompile(`(^|[^A-Za-z0-9_$.])` + regexp.QuoteMeta(name) + `([^A-Za-z0-9_]|$)`)
+		for _, c := range e.contract.allClauses() {
+			if re.MatchString(c.Src) {
+				return true
+			}
+		}
+		return false
+	}
+	candidates := func() []types.Object {
+		var out []types.Object
+		seen := map[types.Object]bool{}
+		if ctr := loopCounter(d.node); ctr != nil {
+			if o := pk.TypesInfo.Defs[ctr]; o != nil {
+				out = append(out, o)
+				seen[o] = true
+			}
+		}
+		for sc := pk.Types.Scope().Innermost(d.inner); sc != nil && sc != pk.Types.Scope(); sc = sc.Parent() {
+			for _, nm := range sc.Names() {
+				o := sc.Lookup(nm)
+				v, isVar := o.(*types.Var)
+				if !isVar || seen[o] || o.Pos() > d.inner {
+					continue
+				}
+				if _, bound := e.cells[v]; !bound {
+					continue
+				}
+				seen[o] = true
+				out = append(out, o)
+			}
+		}
+		return out
+	}
+	try := func(inv *Clause) (missing string) {
+		defer func() {
+			if r := recover(); r != nil {
+				if ce, ok := r.(ContractError); ok {
+					if m := unknownIdentRe.FindStringSubmatch(ce.msg); m != nil {
+						missing = m[1]
+						if strings.Contains(ce.msg, "unknown identifier $"+m[1]) {
+							missing = "$" + m[1]
+						}
+						return
+					}
+					missing = "!" // evaluates with an error of another kind
+					return
+				}
+				panic(r)
+			}
+		}()
+		trial := st.clone()
+		env := e.loopEnv(trial, d.node, d.inner)
+		env.pre = trial
+		env.what = "trial"
+		env.evalBool(inv.Expr)
+		return ""
+	}
+	for _, inv := range invs {
+		for round := 0; round < 4; round++ {
+			miss := try(inv)
+			if miss == "" || miss == "!" {
+				break
+			}
+			chosen := false
+			for _, c := range candidates() {
+				taken := false
+				for _, o := range e.loopAlias[d.node] {
+					if o == c {
+						taken = true
+					}
+				}
+				if taken || (mentioned(c.Name()) && c.Name() != miss) {
+					continue
+				}
+				e.loopAlias[d.node][miss] = c
+				if r := try(inv); r != "!" && r != miss {
+					chosen = true
+					e.warnings = append(e.warnings, "loop "+key+": the invariant names `"+miss+"`, which the code no longer has: read as `"+c.Name()+"`")
+					break
+				}
+				delete(e.loopAlias[d.node], miss)
+			}
+			if !chosen {
+				break
+			}
+		}
+	}
 }
